@@ -9,6 +9,7 @@ import re
 import time
 from typing import Any, Optional
 
+from sa import advisory
 from sa import consteval
 from sa import index
 
@@ -55,6 +56,7 @@ class RuleStat:
   obligations: int = 0
   discharged: int = 0
   unresolved: int = 0
+  advisory_failed: int = 0
   samples: list = dataclasses.field(default_factory=list)
   exhaustive: bool = False
 
@@ -113,7 +115,19 @@ class Ctx:
     if ok:
       rs.discharged += 1
       return True
-    if _undecided(str(message)):
+    if advisory.is_advisory(rule, str(message)):
+      # a construction obligation that no longer decides (sa/advisory.py): the diagnosis is shown as a NOTE
+      rs.obligations -= 1
+      rs.advisory_failed += 1
+      sc = scope.fq if isinstance(scope, index.FuncInfo) else getattr(scope, 'short', scope)
+      wh = scope.loc(where) if isinstance(scope, index.FuncInfo) and not isinstance(where, str) else where
+      notes = getattr(self, 'notes', None)
+      if notes is None:
+        notes = self.notes = []
+      if sum(1 for n_ in notes if n_.startswith(f'NOTE property={self.prop} rule={rule} ')) < 3:
+        notes.append(f'NOTE property={self.prop} rule={rule} {wh if isinstance(wh, str) else ""} [{sc}] {str(message)[:220]} (construction rule, advisory: {advisory.ADVISORY[rule][:80]})')
+      return False
+    if _undecided(str(message)) or 'Opaque(' in str(message) or 'Opaque(' in (construct if isinstance(construct, str) else ''):
       # The interpreter could not follow the code to ONE outcome (a construct it does not model): that is "cannot
       # decide", not "the property is broken". It is reported as an analysis error of this rule (exit 2 unless another
       # rule reports a violation), never as a VIOLATION - a correct rewrite in an unmodelled style must not raise an alarm.
@@ -173,6 +187,8 @@ class Ctx:
 
   def check_floors(self):
     for name, rs in self.rules.items():
+      if name in advisory.ADVISORY_OBLIGATIONS:
+        continue   # its construction obligations are advisory; a lost subject is not an analysis error
       if rs.instances < rs.floor:
         raise index.AnalysisError(
             f'{name}: found {rs.instances} rule subjects, fewer than the '
@@ -263,8 +279,12 @@ def finish(ctx: Ctx, t0: float, evidence_dir: Optional[str] = None,
           f'  {name:<8} {rs.title[:70]:<70} subjects={rs.instances:<4} '
           f'obligations={rs.discharged}/{rs.obligations}'
           + (f' unresolved={rs.unresolved}' if rs.unresolved else '')
+          + (' advisory' if name in advisory.ADVISORY else '')
+          + (f' advisory-notes={rs.advisory_failed}' if rs.advisory_failed else '')
           + (' exhaustive' if rs.exhaustive else '')
       )
+    for l in getattr(ctx, 'notes', []):
+      print(l)
     for l in lines:
       print(l)
   obligations = sum(r.obligations for r in ctx.rules.values())
